@@ -61,7 +61,8 @@ type trFunc struct {
 	mut      []int          // indices of the parameters (receiver = 0 for methods) of pointer or map type assigned through
 	mutObjs  []types.Object // the same as objects; their new values are the first components of the result
 	resType  string         // Lean type of the complete result
-	norder   int            // number of map iteration orders the function takes as extra parameters
+	norder   int            // number of extra parameters (map iteration orders, explicit fuels)
+	extras   []string       // their Lean types (for callers, which pass their own extra parameters on)
 }
 
 type trTranslator struct {
@@ -260,11 +261,31 @@ type trPin struct {
 
 var trPinned = map[string]trPin{
 	trKnutPath + "lib/common/compare.Ordered": {"func Ordered[T constraints.Ordered](t1, t2 T) Order { return cmp.Compare(t1, t2) }", "cmpOrdered"},
+	trKnutPath + "lib/common/dict.Keys":       {"func Keys[K comparable, V any](m map[K]V) []K { res := make([]K, 0, len(m)) for k := range m { res = append(res, k) } return res }", ""},
+	trKnutPath + "lib/common/compare.Sort":    {"func Sort[T any](ts []T, cmp func(T, T) Order) { sort.Slice(ts, func(i, j int) bool { return cmp(ts[i], ts[j]) == Smaller }) }", ""},
+	// dict.SortedKeys(m, cmp) = Keys(m) sorted by sort.Slice with less = (cmp == Smaller): for a comparator that is a strict total order
+	// on the (distinct) keys the result does not depend on the map's iteration order nor on the sorting algorithm: prelude `sortedKeys`
+	trKnutPath + "lib/common/dict.SortedKeys": {"func SortedKeys[K comparable, V any](m map[K]V, c compare.Compare[K]) []K { res := Keys(m) compare.Sort(res, c) return res }", "sortedKeys"},
 	trKnutPath + "lib/common/dict.GetDefault": {"func GetDefault[K comparable, V any](m map[K]V, k K, c func() V) V { v, ok := m[k] if !ok { v = c() m[k] = v } return v }", ""},
+}
+
+// trPinDeps: pins whose meaning also depends on other pinned texts
+var trPinDeps = map[string][]string{
+	trKnutPath + "lib/common/dict.SortedKeys": {trKnutPath + "lib/common/dict.Keys", trKnutPath + "lib/common/compare.Sort"},
 }
 
 func (t *trTranslator) checkPinned(f *types.Func, pos token.Pos) {
 	full := f.Origin().FullName()
+	for _, dep := range trPinDeps[full] {
+		i := strings.LastIndex(dep, ".")
+		if p, err := t.l.load(dep[:i]); err == nil {
+			if o, ok := p.tpkg.Scope().Lookup(dep[i+1:]).(*types.Func); ok {
+				t.checkPinned(o, pos)
+				continue
+			}
+		}
+		trFail(pos, "%s: pinned helper %s not found", full, dep)
+	}
 	pin := trPinned[full]
 	p := t.l.pkgs[f.Pkg().Path()]
 	if p == nil {
